@@ -1024,6 +1024,84 @@ func ruleKill(c *Ctx) {
 	} else {
 		c.R.Hold("R-EXIT/kill", p.Pos(f.Node()), f.Name, "kill-or-exited on every exit", "every exit is the no-runner early return, the arm that received from Client.doneCtx.Done(), or passes runner.Kill", true)
 	}
+	// a plugin that had a protocol client has it closed by Kill: the client owns
+	// host-side resources (the broker's listeners and their socket files, the
+	// stdio and broker goroutines) that nothing else releases. An exit of Kill
+	// that passes no ClientProtocol.Close lies behind the no-runner return, the
+	// edge on which the plugin never announced an address, the edge on which no
+	// client could be obtained (Client() failed, or a snapshot of Client.client
+	// is nil).
+	{
+		addrF := p.FieldObj(modPath, "Client", "address")
+		clientF := p.FieldObj(modPath, "Client", "client")
+		isProtoClose := func(m *Node) bool {
+			if m.Ast == nil {
+				return false
+			}
+			for _, call := range callsIn(m.Ast) {
+				se, ok := ast.Unparen(call.Fun).(*ast.SelectorExpr)
+				if !ok || se.Sel.Name != "Close" {
+					continue
+				}
+				if t := info.TypeOf(se.X); t != nil && strings.HasSuffix(t.String(), "go-plugin.ClientProtocol") {
+					return true
+				}
+			}
+			return false
+		}
+		fromClientCall := func(x ast.Expr) bool {
+			v, ok := identObj(info, ast.Unparen(x)).(*types.Var)
+			if !ok || v.IsField() {
+				return false
+			}
+			found := false
+			ast.Inspect(f.Body, func(y ast.Node) bool {
+				as, isAs := y.(*ast.AssignStmt)
+				if !isAs || len(as.Rhs) != 1 {
+					return true
+				}
+				for _, l := range as.Lhs {
+					if identObj(info, l) == types.Object(v) {
+						if cc, isC := ast.Unparen(as.Rhs[0]).(*ast.CallExpr); isC && p.CalleeName(f, cc) == modPath+".Client.Client" {
+							found = true
+						}
+					}
+				}
+				return true
+			})
+			return found
+		}
+		cutClose := func(e *Edge) bool {
+			if p.isNoRunnerEdge(info, e) {
+				return true
+			}
+			at, isAt := edgeAtom(info, e)
+			if !isAt || at.Kind != "nil" {
+				return false
+			}
+			if at.Op == token.NEQ && isErrorType(info.TypeOf(at.X)) && fromClientCall(at.X) {
+				return true // Client() failed: nothing to close
+			}
+			if at.Op == token.EQL {
+				fv := SelField(info, ast.Unparen(p.Deref(f, at.X)))
+				if fv != nil && (fv == addrF || fv == clientF) {
+					return true
+				}
+			}
+			return false
+		}
+		seenC := g.Reach([]*Node{g.Entry}, isProtoClose, cutClose)
+		_, leak := seenC[g.Exit]
+		if leak {
+			leak = p.FeasibleReach(f, []*Node{g.Entry}, isProtoClose, cutClose)[g.Exit]
+		}
+		if leak {
+			c.R.Violate("R-EXIT/kill", p.Pos(f.Node()), f.Name, "protocol client closed on every exit",
+				"Kill can return without closing the protocol client although the plugin had announced an address and a client may exist (not the no-runner return, not the no-address edge, not a failed Client()): the host-side broker listeners, their socket files and the stdio/broker goroutines of that client are never released", p.PathTo(seenC, g.Exit))
+		} else {
+			c.R.Hold("R-EXIT/kill", p.Pos(f.Node()), f.Name, "protocol client closed on every exit", "every exit passes ClientProtocol.Close, or lies behind the no-runner return, the no-address edge or a failed Client()", true)
+		}
+	}
 	// the runner reference is dropped only after the management goroutines were waited for
 	nClear := 0
 	okClear := true
@@ -1127,7 +1205,11 @@ func ruleCtx(c *Ctx) {
 		if ok {
 			c.R.Hold("R-CTX", p.Pos(call), f.Name, what, detail, true)
 		} else {
-			c.R.Violate("R-CTX", p.Pos(call), f.Name, what, detail+": the context handed on is not the client's exit context, so plugin death is not propagated", nil)
+			suffix := ": the context handed on is not the client's exit context, so plugin death is not propagated"
+			if strings.HasPrefix(what, "broker stream") {
+				suffix = ""
+			}
+			c.R.Violate("R-CTX", p.Pos(call), f.Name, what, detail+suffix, nil)
 		}
 	}
 	for _, f := range p.Funcs {
@@ -1146,6 +1228,32 @@ func ruleCtx(c *Ctx) {
 			case full == modPath+".GRPCPlugin.GRPCClient":
 				fv := SelField(info, call.Args[0])
 				check(f, call, "GRPCPlugin.GRPCClient(ctx)", fv != nil && p.FieldName(fv) == "GRPCClient.doneCtx", "first argument must be GRPCClient.doneCtx")
+			case strings.HasSuffix(full, "/internal/plugin.GRPCBrokerClient.StartStream") && len(call.Args) >= 1:
+				// the broker stream lives as long as the connection: its context
+				// may be cancellable, but carries no deadline
+				bounded := ""
+				if v, ok := identObj(info, call.Args[0]).(*types.Var); ok && !v.IsField() {
+					ast.Inspect(f.Body, func(y ast.Node) bool {
+						as, isAs := y.(*ast.AssignStmt)
+						if !isAs || len(as.Rhs) != 1 {
+							return true
+						}
+						for _, l := range as.Lhs {
+							if identObj(info, l) == types.Object(v) {
+								if cc, isC := ast.Unparen(as.Rhs[0]).(*ast.CallExpr); isC {
+									switch nm := p.CalleeName(f, cc); nm {
+									case "context.WithTimeout", "context.WithDeadline", "context.WithTimeoutCause", "context.WithDeadlineCause":
+										bounded = nm
+									}
+								}
+							}
+						}
+						return true
+					})
+				} else if cc, isC := ast.Unparen(call.Args[0]).(*ast.CallExpr); isC && strings.HasPrefix(p.CalleeName(f, cc), "context.With") {
+					bounded = p.CalleeName(f, cc)
+				}
+				check(f, call, "broker stream context has no deadline", bounded == "", "the context of the long-lived broker stream must not come from "+map[bool]string{true: "context.WithTimeout/WithDeadline", false: bounded}[bounded == ""]+" (when the deadline passes the stream ends and with it every later Accept and Dial)")
 			case strings.HasSuffix(full, "/internal/plugin.GRPCStdioClient.StreamStdio"):
 				v, _ := identObj(info, call.Args[0]).(*types.Var)
 				check(f, call, "StreamStdio(ctx)", v != nil && isParamOf(info, f, v) && !assignedIn(info, f, v), "first argument must be the context parameter, as received (not re-bound to a derived context: a deadline or cancellation added here ends the long-lived stdio stream)")
